@@ -209,6 +209,6 @@ def run(ctx):
     streams.hist_corr(ctx, ents=es, nhist=ctx.n(16, 150))
     streams.fn_corr(ctx, ents=es, ncases=ctx.n(60, 800))
     streams.presentation_variants(ctx, fn_ents=es, hist_ents=es)
-    streams.wide_corr(ctx, es)
+    streams.wide_corr(ctx, es, variants=("u8", "i16"))
     random_recall_spec(ctx)
     exhaustive(ctx)
